@@ -39,7 +39,8 @@ class PSyDataInterp(Interp):
     def __init__(self, *a, **kw):
         super().__init__(*a, **kw)
         self.allow_save_struct = True
-        self.pevents = []           # (guard, handle, method, names)
+        self.pevents = []
+        self.check_kinds = False      # kinds come from external (infrastructure) modules           # (guard, handle, method, names)
         self.extern_handler = self._psydata_call
 
     def use_handler(self, d, frame):
